@@ -37,6 +37,10 @@ void gen_common(Rng& r, Plan& p, int sb_mode, bool faults, uint64_t expected_ste
   p.cfg["starve_tid"] = (int64_t)r.range(0, 5);
   p.cfg["t0"] = 1000000000LL;
   p.cfg["post_pts"] = r.chance(2, 5) ? 1 : 0;
+  // post-publish stall in a quarter of the post_pts runs. Derived from a value
+  // drawn above instead of a new draw, so that the plans of all harnesses stay
+  // what they were for every seed (only the schedule of these runs changes).
+  if (p.cfg["post_pts"] && (p.cfg["starve_from"] & 3) == 0) p.cfg["post_stall"] = 16;
 }
 
 namespace rt {
